@@ -2,6 +2,7 @@ mod common;
 mod sched;
 mod world;
 mod c14;
+mod c20;
 
 use common::*;
 
@@ -28,6 +29,7 @@ fn main() {
     .unwrap_or(1);
   let code = match id {
     "C14" => c14::run(tier, seed),
+    "C20" => c20::run(tier, seed, args.iter().any(|a| a == "--miri")),
     _ => {
       eprintln!("unknown property {}", id);
       64
